@@ -118,13 +118,14 @@ def _scratch_dir_with_distinct_job_ids(names):
     """The analyzer derives a 4-digit job id from crc32(path) % 10000; two input files of ONE run whose
     ids collide share one registry slot (observation recorded in DESIGN.md; hypothesis KeysInjective
     of C20).  Generated scenarios stay inside that assumption: pick a scratch directory in which the
-    ids of the input files are pairwise distinct and differ from the 'top_level_multifile' pseudo job."""
+    ids of the input files are pairwise distinct, differ from the 'top_level_multifile' pseudo job and from 0."""
     import zlib
     top = zlib.crc32(b"top_level_multifile") % 10000
     for _ in range(50):
         tmp = tempfile.mkdtemp(prefix="aiuverif_")
         ids = [zlib.crc32(os.path.join(tmp, n).encode()) % 10000 for n in names]
-        if len(set(ids)) == len(ids) and top not in ids:
+        # id 0 is the key the harnesses give to events they synthesize themselves (never a registered job)
+        if len(set(ids)) == len(ids) and top not in ids and 0 not in ids:
             return tmp
         shutil.rmtree(tmp, ignore_errors=True)
     return tempfile.mkdtemp(prefix="aiuverif_")
